@@ -22,9 +22,9 @@ Theorem C10_crash_safe :
   forall (H : list N -> N) (shuffle : nat -> list entry -> list entry),
     (forall c l e, In e (shuffle c l) <-> In e l) ->
     forall (h : list op) (o : op) (k : nat),
-      let s := run H shuffle src_inplace src_unlink_first h init in
-      Recoverable H (sfs s) (crash_fs H shuffle src_inplace src_unlink_first s o k)
-        (sfs (run_op H shuffle src_inplace src_unlink_first s o)).
+      let s := run H shuffle src_inplace src_unlink_first true h init in
+      Recoverable H (sfs s) (crash_fs H shuffle src_inplace src_unlink_first true s o k)
+        (sfs (run_op H shuffle src_inplace src_unlink_first true s o)).
 Proof. exact crash_safe_src. Qed.
 Print Assumptions C10_crash_safe.
 
@@ -37,9 +37,9 @@ Theorem C10_crash_safe_after_recoveries :
   forall (H : list N -> N) (shuffle : nat -> list entry -> list entry),
     (forall c l e, In e (shuffle c l) <-> In e l) ->
     forall (h : list hop) (o : op) (k : nat),
-      let s := runc H shuffle src_inplace src_unlink_first h init in
-      Recoverable H (sfs s) (crash_fs H shuffle src_inplace src_unlink_first s o k)
-        (sfs (run_op H shuffle src_inplace src_unlink_first s o)).
+      let s := runc H shuffle src_inplace src_unlink_first true h init in
+      Recoverable H (sfs s) (crash_fs H shuffle src_inplace src_unlink_first true s o k)
+        (sfs (run_op H shuffle src_inplace src_unlink_first true s o)).
 Proof. exact crash_safe_recovered_src. Qed.
 Print Assumptions C10_crash_safe_after_recoveries.
 
@@ -58,13 +58,13 @@ Theorem C10_crash_safe_composite :
   forall (H : list N -> N) (shuffle : nat -> list entry -> list entry),
     (forall c l e, In e (shuffle c l) <-> In e l) ->
     forall (h : list hop) (os : list op) (k : nat),
-      let s := runc H shuffle src_inplace src_unlink_first h init in
-      let fsk := crash_seq H shuffle src_inplace src_unlink_first s os k in
+      let s := runc H shuffle src_inplace src_unlink_first true h init in
+      let fsk := crash_seq H shuffle src_inplace src_unlink_first true s os k in
       (exists pre o post,
          os = pre ++ o :: post /\
-         let sj := run H shuffle src_inplace src_unlink_first pre s in
-         Recoverable H (sfs sj) fsk (sfs (run_op H shuffle src_inplace src_unlink_first sj o))) \/
-      (fsk = sfs (run H shuffle src_inplace src_unlink_first os s) /\
+         let sj := run H shuffle src_inplace src_unlink_first true pre s in
+         Recoverable H (sfs sj) fsk (sfs (run_op H shuffle src_inplace src_unlink_first true sj o))) \/
+      (fsk = sfs (run H shuffle src_inplace src_unlink_first true os s) /\
        layout_ok fsk /\ blob_ok H fsk /\ index_ok fsk).
 Proof. exact crash_safe_composite_src. Qed.
 Print Assumptions C10_crash_safe_composite.
@@ -78,9 +78,9 @@ Theorem C10_cascade_blobs_between :
     (forall c l e, In e (shuffle c l) <-> In e l) ->
     forall (h : list hop) (os : list op) (k : nat),
       (forall o, In o os -> match o with Delete _ | Forget _ | SaveIndex => True | _ => False end) ->
-      let s := runc H shuffle src_inplace src_unlink_first h init in
-      let fsk := crash_seq H shuffle src_inplace src_unlink_first s os k in
-      let fs1 := sfs (run H shuffle src_inplace src_unlink_first os s) in
+      let s := runc H shuffle src_inplace src_unlink_first true h init in
+      let fsk := crash_seq H shuffle src_inplace src_unlink_first true s os k in
+      let fs1 := sfs (run H shuffle src_inplace src_unlink_first true os s) in
       (forall d, has (sfs s) (FBlob d) -> has fs1 (FBlob d) -> has fsk (FBlob d)) /\
       (forall d, has fsk (FBlob d) -> has (sfs s) (FBlob d)).
 Proof. exact crash_shrinking_between_src. Qed.
@@ -95,23 +95,51 @@ Theorem C10_cascade_tags_before_or_after :
   forall (H : list N -> N) (shuffle : nat -> list entry -> list entry),
     (forall c l e, In e (shuffle c l) <-> In e l) ->
     forall (h : list hop) (d : N) (xs : list N) (k : nat),
-      let s := runc H shuffle src_inplace src_unlink_first h init in
+      let s := runc H shuffle src_inplace src_unlink_first true h init in
       (forall l, read_index (sfs s) = Some l -> forall x r, In x xs -> ~ tag_of l r x) ->
       let os := Delete d :: map Delete xs in
-      let fsk := crash_seq H shuffle src_inplace src_unlink_first s os k in
-      same_tags fsk (sfs s) \/ same_tags fsk (sfs (run H shuffle src_inplace src_unlink_first os s)).
+      let fsk := crash_seq H shuffle src_inplace src_unlink_first true s os k in
+      same_tags fsk (sfs s) \/ same_tags fsk (sfs (run H shuffle src_inplace src_unlink_first true os s)).
 Proof. exact cascade_tags_src. Qed.
 Print Assumptions C10_cascade_tags_before_or_after.
+
+(* GC as the code does it: Forget (rebuild the maps, save index.json), then BARE removals of
+   blob files (os.Remove, no Store.delete).  Under the fact the sweep relies on -- no swept
+   blob is in the live set or carries a reference name (checked by the harness on every
+   recorded GC) -- each removal of the call is exactly one unlink (the model's plain Delete
+   degenerates to it), the tag mapping read from index.json is unchanged at every cut, and
+   index.json is the one before the call or the one Forget saved.  Together with
+   C10_crash_safe_composite and C10_cascade_blobs_between (gc_ops is such a list) this is
+   the property for GC. *)
+Theorem C10_gc_crash_safe :
+  forall (H : list N -> N) (shuffle : nat -> list entry -> list entry),
+    (forall c l e, In e (shuffle c l) <-> In e l) ->
+    forall (h : list hop) (live xs : list N) (k : nat),
+      let s := runc H shuffle src_inplace src_unlink_first true h init in
+      (forall l, read_index (sfs s) = Some l ->
+         forall x, In x xs -> ~ In x live /\ forall r, ~ tag_of l r x) ->
+      let os := gc_ops live xs in
+      let fsk := crash_seq H shuffle src_inplace src_unlink_first true s os k in
+      (forall pre x post, map Delete xs = pre ++ Delete x :: post ->
+         let sj := run H shuffle src_inplace src_unlink_first true pre
+                     (run_op H shuffle src_inplace src_unlink_first true s (Forget live)) in
+         op_steps H shuffle src_inplace src_unlink_first true sj (Delete x)
+           = if exists_file (sfs sj) (FBlob x) then [Unlink (FBlob x)] else []) /\
+      same_tags fsk (sfs s) /\
+      (read_index fsk = read_index (sfs s) \/
+       read_index fsk = read_index (sfs (run_op H shuffle src_inplace src_unlink_first true s (Forget live)))).
+Proof. exact gc_crash_safe_src. Qed.
+Print Assumptions C10_gc_crash_safe.
 
 (* the tag mapping a reader derives from index.json is the one before or the one after *)
 Theorem C10_tag_mapping_before_or_after :
   forall (H : list N -> N) (shuffle : nat -> list entry -> list entry),
     (forall c l e, In e (shuffle c l) <-> In e l) ->
     forall (h : list op) (o : op) (k : nat),
-      let s := run H shuffle src_inplace src_unlink_first h init in
-      let fsk := crash_fs H shuffle src_inplace src_unlink_first s o k in
+      let s := run H shuffle src_inplace src_unlink_first true h init in
+      let fsk := crash_fs H shuffle src_inplace src_unlink_first true s o k in
       same_tags fsk (sfs s) \/
-      same_tags fsk (sfs (run_op H shuffle src_inplace src_unlink_first s o)).
+      same_tags fsk (sfs (run_op H shuffle src_inplace src_unlink_first true s o)).
 Proof. exact crash_tags_src. Qed.
 Print Assumptions C10_tag_mapping_before_or_after.
 
@@ -123,7 +151,7 @@ Theorem C10_completed_effects :
   forall (H : list N -> N) (shuffle : nat -> list entry -> list entry),
     (forall c l e, In e (shuffle c l) <-> In e l) ->
     forall (h : list op),
-      let s := run H shuffle src_inplace src_unlink_first h init in
+      let s := run H shuffle src_inplace src_unlink_first true h init in
       let bs := fst (spec_run H h (fun _ => false) (fun _ => None)) in
       let tg := snd (spec_run H h (fun _ => false) (fun _ => None)) in
       (forall d, exists_file (sfs s) (FBlob d) = bs d) /\
@@ -131,13 +159,47 @@ Theorem C10_completed_effects :
 Proof. exact completed_effects_src. Qed.
 Print Assumptions C10_completed_effects.
 
+(* "Effects of operations that had returned before the crash are all present", across any
+   number of crashes: a blob stored by a Push that returned is there as long as no later
+   operation -- completed or interrupted at any cut -- is a Delete of it (cascades and
+   sweeps are sequences of such deletes) ... *)
+Theorem C10_completed_push_survives_crashes :
+  forall (H : list N -> N) (shuffle : nat -> list entry -> list entry),
+    (forall c l e, In e (shuffle c l) <-> In e l) ->
+    forall (h : list hop) (d : N),
+      stored_since H d h = true ->
+      exists_file (sfs (runc H shuffle src_inplace src_unlink_first true h init)) (FBlob d) = true.
+Proof. exact completed_push_survives_src. Qed.
+Print Assumptions C10_completed_push_survives_crashes.
+
+(* ... and a reference set by a Tag that returned (on a stored blob) is in index.json as long as
+   no later operation -- completed or interrupted -- is a Tag or Untag of that name or a
+   Delete of that blob. *)
+Theorem C10_completed_tag_survives_crashes :
+  forall (H : list N -> N) (shuffle : nat -> list entry -> list entry),
+    (forall c l e, In e (shuffle c l) <-> In e l) ->
+    forall (h : list hop) (d r : N),
+      tagged_since H d r h = true ->
+      exists l, read_index (sfs (runc H shuffle src_inplace src_unlink_first true h init)) = Some l /\
+                tag_of l r d.
+Proof. exact completed_tag_survives_src. Qed.
+Print Assumptions C10_completed_tag_survives_crashes.
+
+Example C10_survives_example :
+  let H := fun c : list N => match c with [7] => 1 | [9] => 2 | _ => 0 end in
+  let h := [Done (Push 2 [9] true); Done (Tag 2 5); Crashed (Push 1 [7] false) 3;
+            Crashed (Tag 2 6) 2; Done (Push 1 [7] false); Crashed (Delete 1) 0] in
+  stored_since H 2 h = true /\ tagged_since H 2 5 h = true /\
+  stored_since H 1 h = false /\ tagged_since H 2 6 h = false.
+Proof. vm_compute. repeat split; reflexivity. Qed.
+
 (* Nothing that a reader looks at is ever written in place: every create / truncate /
    write / chmod micro-step of every operation targets a temporary (ingest/<d>_<rnd> or
    index.json.tmp<rnd>); oci-layout, index.json and blobs/ change by rename and unlink
    only.  Hence the granularity of write(2) (partial or torn writes) is irrelevant. *)
 Theorem C10_no_in_place_write :
   forall (H : list N -> N) (shuffle : nat -> list entry -> list entry) (s : st) (o : op) (m : mstep),
-    In m (op_steps H shuffle src_inplace src_unlink_first s o) ->
+    In m (op_steps H shuffle src_inplace src_unlink_first true s o) ->
     match m with
     | Create p | OpenTrunc p | Write p _ | Chmod p => is_temp p = true
     | _ => True
@@ -184,9 +246,9 @@ Print Assumptions C10_source_order.
 Theorem C10_crash_safe_refuted_inplace :
   forall (H : list N -> N),
   exists h o k,
-    let s := run H (fun _ l => l) true false h init in
-    ~ Recoverable H (sfs s) (crash_fs H (fun _ l => l) true false s o k)
-        (sfs (run_op H (fun _ l => l) true false s o)).
+    let s := run H (fun _ l => l) true false true h init in
+    ~ Recoverable H (sfs s) (crash_fs H (fun _ l => l) true false true s o k)
+        (sfs (run_op H (fun _ l => l) true false true s o)).
 Proof. exact crash_unsafe_inplace. Qed.
 Print Assumptions C10_crash_safe_refuted_inplace.
 
@@ -194,11 +256,37 @@ Print Assumptions C10_crash_safe_refuted_inplace.
    Witness: push a manifest, delete it, cut after the unlink. *)
 Theorem C10_crash_safe_refuted_unlink_first :
   exists H h o k,
-    let s := run H (fun _ l => l) false true h init in
-    ~ Recoverable H (sfs s) (crash_fs H (fun _ l => l) false true s o k)
-        (sfs (run_op H (fun _ l => l) false true s o)).
+    let s := run H (fun _ l => l) false true true h init in
+    ~ Recoverable H (sfs s) (crash_fs H (fun _ l => l) false true true s o k)
+        (sfs (run_op H (fun _ l => l) false true true s o)).
 Proof. exact crash_unsafe_unlink_first. Qed.
 Print Assumptions C10_crash_safe_refuted_unlink_first.
+
+(* AutoSaveIndex = false (the last argument of run/crash_fs; every theorem above is stated
+   for the default true): the property does NOT hold.  Witness: push a manifest, tag it,
+   SaveIndex, Delete it -- the blob is unlinked while the saved index.json still names it
+   (no crash needed; known finding autosave-off-index-dangling). *)
+Theorem C10_crash_safe_refuted_autosave_off :
+  exists H h o k,
+    let s := run H (fun _ l => l) false false false h init in
+    ~ Recoverable H (sfs s) (crash_fs H (fun _ l => l) false false false s o k)
+        (sfs (run_op H (fun _ l => l) false false false s o)).
+Proof. exact crash_unsafe_autosave_off. Qed.
+Print Assumptions C10_crash_safe_refuted_autosave_off.
+
+(* the hypotheses of the cascade / GC theorems are satisfiable on a non-trivial instance:
+   a layer (1), an untagged manifest (3) and a tagged manifest (2); GC with live = [2]
+   sweeps 1 and 3; the cut after Forget and one removal *)
+Example C10_gc_example_instance :
+  let H := fun c : list N => match c with [7] => 1 | [9] => 2 | [8] => 3 | _ => 0 end in
+  let id := fun (_ : nat) (l : list entry) => l in
+  let h := [Done (Push 1 [7] false); Done (Push 2 [9] true); Done (Push 3 [8] true); Done (Tag 2 5)] in
+  let s := runc H id src_inplace src_unlink_first true h init in
+  let fsk := crash_seq H id src_inplace src_unlink_first true s (gc_ops [2] [1; 3]) 5 in
+  read_index (sfs s) = Some [(2, Some 5); (3, None)] /\
+  read_index fsk = Some [(2, Some 5)] /\
+  exists_file fsk (FBlob 1) = false /\ exists_file fsk (FBlob 3) = true /\ exists_file fsk (FBlob 2) = true.
+Proof. vm_compute. repeat split; reflexivity. Qed.
 
 (* The hypotheses are satisfiable and the statement is not vacuous: a concrete history
    (push a layer, push a manifest, tag it, delete it cut after the index rename). *)
@@ -206,9 +294,9 @@ Example C10_example_instance :
   let H := fun c : list N => match c with [7; 8] => 1 | [9] => 2 | _ => 0 end in
   let id := fun (_ : nat) (l : list entry) => l in
   let h := [Push 1 [7; 8] false; Push 2 [9] true; Tag 2 5] in
-  let s := run H id src_inplace src_unlink_first h init in
-  let fsk := crash_fs H id src_inplace src_unlink_first s (Delete 2) 4 in
-  let fs1 := sfs (run_op H id src_inplace src_unlink_first s (Delete 2)) in
+  let s := run H id src_inplace src_unlink_first true h init in
+  let fsk := crash_fs H id src_inplace src_unlink_first true s (Delete 2) 4 in
+  let fs1 := sfs (run_op H id src_inplace src_unlink_first true s (Delete 2)) in
   (forall c l e, In e (id c l) <-> In e l) /\
   recoverableb H [1; 2] (sfs s) fsk fs1 = true /\
   read_index (sfs s) = Some [(2, Some 5)] /\
